@@ -76,8 +76,8 @@ def gen_direction(r, w, rd, kind, threads, big):
     elif style < 0.5 and ending == "shutdown":       # drain until end of stream
         rops.append("recvall %s 100000000 %d" % (rd, r.choice([1, 100, 4096, 100000]) if n < 20000 else r.choice([4096, 100000])))
     else:                   # full-count reads that add up (the last one may over-ask when the stream ends)
-        if r.random() < 0.2:
-            rops.append("timeout %s %d" % (rd, r.choice([1000, 10000])))
+        if r.random() < 0.3:
+            rops.append("timeout %s %d" % (rd, r.choice([300, 1000, 10000])))
         ks = split_total(r, n)
         for i, k in enumerate(ks):
             over = r.choice([1, 1000]) if (i == len(ks) - 1 and ending == "shutdown" and r.random() < 0.4) else 0
@@ -116,6 +116,22 @@ def gen_program(r, big=False):
         gen_direction(r, "%da" % c, "%db" % c, kind, threads, big)
         if r.random() < 0.5:     # the other direction of the same descriptors at the same time
             gen_direction(r, "%db" % c, "%da" % c, kind, threads, big)
+    if not many and nconn >= 2 and r.random() < 0.5:
+        # one thread serving two connections with short timeouts: a timed-out wait on one descriptor must leave nothing behind that
+        # could wake the thread while it waits on the other one (or sleeps)
+        c1, c2 = r.sample(range(nconn), 2)
+        lines.append("conn %d unix 0 0" % nconn)
+        lines.append("conn %d unix 0 0" % (nconn + 1))
+        x, y = "%db" % nconn, "%db" % (nconn + 1)
+        ops = ["timeout %s %d" % (x, r.choice([100, 300])), "timeout %s %d" % (y, r.choice([100, 300, 1000]))]
+        wx, wy = ["sleep %d" % r.choice([200, 500])], ["sleep %d" % r.choice([50, 700])]
+        for _ in range(r.randint(2, 6)):
+            ops.append("recv %s %d" % (r.choice([x, y]), r.choice([1, 50])))
+            if r.random() < 0.3:
+                ops.append("sleep %d" % r.choice([100, 400]))
+            wx.append("send %da %d" % (nconn, r.choice([1, 10]))); wx.append("sleep %d" % r.choice([150, 400, 900]))
+            wy.append("send %da %d" % (nconn + 1, r.choice([1, 10]))); wy.append("sleep %d" % r.choice([150, 400, 900]))
+        threads += [ops, wx, wy]
     for i, ops in enumerate(threads):
         lines.append("thread T%d %s" % (i + 1, " ; ".join(ops) if ops else "yield"))
     return lines
@@ -197,6 +213,55 @@ def gen_doio(r):
     return "vec %s %s" % (",".join(map(str, ls)), ",".join(rs))
 
 
+def doio_oracle(op, out):
+    """property-level check of one run of the real transfer loop, independent of the Lean model: every transfer must be asked for
+    exactly the not yet transferred rest of the flat byte sequence, never for nothing while bytes remain, and the result is the
+    bytes moved (or -1 after a failure)"""
+    w = op.split()
+    if not out.startswith("ret="):
+        return "the transfer loop crashed: " + out[:200]
+    ret = int(out.split()[0][4:])
+    calls = out.split("calls=")[1] if "calls=" in out else ""
+    rs = [x for x in w[2].split(",") if x]
+    if w[0] == "buf":
+        flat = list(range(int(w[1])))
+        reqs = [list(range(int(a), int(a) + int(b))) for a, b in (c.split("+") for c in calls.split(",") if c)]
+    else:
+        flat = []
+        for i, l in enumerate(int(x) for x in w[1].split(",")):
+            flat += [(i + 1) * 1000000 + k for k in range(l)]
+        reqs = []
+        for v in calls.split("|"):
+            cur = []
+            for c in v.split(","):
+                if c:
+                    a, b = c.split("+")
+                    cur += [int(a) + k for k in range(int(b))]
+            reqs.append(cur)
+    done, exp = 0, None
+    for n, req in enumerate(reqs):
+        if exp is not None:
+            return "transfer %d was issued after the loop should have ended" % (n + 1)
+        if req != flat[done:]:
+            return "transfer %d was asked for something else than the untransferred rest (offset %d)" % (n + 1, done)
+        if not req and flat[done:]:
+            return "transfer %d was asked for nothing although bytes remain" % (n + 1)
+        r = rs[n] if n < len(rs) else "0"
+        if r == "e":
+            exp = -1
+        elif int(r) == 0:
+            exp = done
+        else:
+            done += int(r)
+            if done >= len(flat) and n == len(reqs) - 1:
+                exp = done
+    if exp is None:
+        return "the loop stopped after %d transfers and %d of %d bytes although the stream had not ended" % (len(reqs), done, len(flat))
+    if ret != exp:
+        return "the loop returned %d, %d bytes were moved%s" % (ret, done, " and the last transfer failed" if exp == -1 else "")
+    return None
+
+
 def run(rep, tier, seed, replay=None):
     ok, log = C.lean_build()
     if not ok:
@@ -233,15 +298,22 @@ def run(rep, tier, seed, replay=None):
         if rc2 != 0 or len(model) != len(ops):
             rep.violation("unverified", dict(broken="driver doio failed: %s" % err2[-500:]), no_input=True)
             return
+        first_diff = None
         for i, op in enumerate(ops):
             a = impl[i] if i < len(impl) else "crashed: " + err[-300:]
             rep.distinct(("doio", op.split()[0], a.split()[0] if a else ""))
-            if a != model[i] and not reported:
-                # the model is proved to transfer the flat byte sequence in order; a disagreement on the request log is a
-                # wrong resumption of the real loop
-                rep.violation("counterexample", dict(harness="c10_doio", op=op, observed=a,
-                                                     expected="%s (Lean model of doio_loop, proved to issue exactly the not yet transferred suffix)" % model[i]))
+            bad = doio_oracle(op, a)
+            if bad and not reported:
+                rep.violation("counterexample", dict(harness="c10_doio", op=op, observed=a, expected=bad, model=model[i]))
                 reported = True
+            if a != model[i] and first_diff is None:
+                first_diff = (op, a, model[i])
+        if first_diff and not reported:
+            # the real loop issues different requests than the model although every request still denotes the untransferred suffix
+            # and the result is right on every generated input: the correspondence is broken, the property is not shown violated
+            rep.violation("unverified", dict(broken="correspondence c10_doio vs Lean model `ioLoop`/`ioLoopV` (theorems C10_ioLoop*_requests_suffix no longer "
+                                                    "speak about this code)", op=first_diff[0], observed=first_diff[1], model=first_diff[2]), no_input=True)
+            reported = True
         rep.count(len(ops))
         rep.cov["doio_ops"] = len(ops)
     # ---- B. real sockets + real engine on the virtual clock
@@ -259,7 +331,7 @@ def run(rep, tier, seed, replay=None):
             for f in sorted(os.listdir(cp)):
                 if f.startswith("sock"):
                     progs.append([l.rstrip("\n") for l in open(os.path.join(cp, f)) if l.strip() and not l.startswith("#")])
-        for _ in range(1200 if tier == "thorough" else 240):
+        for _ in range(4000 if tier == "thorough" else 600):
             progs.append(gen_program(r, tier == "thorough"))
     shards = [progs[i::8] for i in range(8)]
     try:
